@@ -17,6 +17,7 @@ Clause(tr, e) ==
          IF e.cnt = CountIn(TrueTerms(tr.classes[e.c], e.n), e.params) THEN "ok" ELSE "CountForParametersEqualsTrueNumber"
     [] e.op = "spec" -> SpecClause(e.rules, e.root, SeqSetS(tr.te), SeqSetS(tr.pack))
     [] e.op = "expand" -> ExpandClause(e)
+    [] e.op = "expand_one" -> ExpandOneClause(e)
     [] e.op = "outcome" -> IF e.kind \in {"spec", "none", "timeout", "budget"} THEN "ok" ELSE "SearchRaised:" \o e.kind
     [] OTHER -> "UnknownEvent"
 Init == t = 1 /\ l = 1 /\ TLCSet(1, 0)
